@@ -46,6 +46,16 @@ def bitrev32(x):
     return int("{:032b}".format(x)[::-1], 2)
 
 
+def pow10_rule(rep, un):
+    """the digit counters of num2str.h size their output from pow10lst: a wrong entry makes them write before the buffer"""
+    p10 = gv(un, "pow10lst")
+    f = un.fn("u642str")
+    ok = isinstance(p10, list) and all(int(p10[k]) == 10 ** k for k in range(1, len(p10))) and len(p10) == 20
+    badk = [k for k in range(1, len(p10))] if not isinstance(p10, list) else [k for k in range(1, len(p10)) if int(p10[k]) != 10 ** k]
+    (rep.proved if ok else rep.violated)("R-TBL", f, "pow10lst", "pow10lst[k] = 10^k for k = 1..19 (index 0 is not used by the digit counters)",
+                                         ("entries %s differ: e.g. pow10lst[%d] = %s" % (badk[:4], badk[0], p10[badk[0]])) if badk else str(p10)[:80])
+
+
 def tables(rep, us):
     ub = us["utils/base64.h"]
     fe = ub.fn("base64_encode")
@@ -66,12 +76,7 @@ def tables(rep, us):
         bad.append("table missing")
     (rep.proved if not bad else rep.violated)("R-TBL", ub.fn("base64_decode"), "base64-decode-table",
                                               "decode table is the inverse of the alphabet and maps no other byte into 0..63", "; ".join(bad[:4]))
-    un = us["utils/num2str.h"]
-    p10 = gv(un, "pow10lst")
-    f = un.fn("u642str")
-    ok = isinstance(p10, list) and all(int(p10[k]) == 10 ** k for k in range(1, len(p10))) and len(p10) == 20
-    (rep.proved if ok else rep.violated)("R-TBL", f, "pow10lst", "pow10lst[k] = 10^k for k = 1..19 (index 0 is not used by the digit counters)",
-                                         str(p10)[:80])
+    pow10_rule(rep, us["utils/num2str.h"])
     uc = us["math/crc32.h"]
     fc = uc.fn("crc32_normal") or uc.function_list[0]
     n = 0
